@@ -16,10 +16,13 @@ def main():
     ap.add_argument("--poles", default=None)
     ap.add_argument("--noopt", action="store_true")
     ap.add_argument("--cwd", default=None)
+    ap.add_argument("--as-file", action="store_true", help="pass the source path as source_name (imports resolve next to it)")
     ap.add_argument("--free-solver", action="store_true", help="do not install the deterministic-solver seam")
     a = ap.parse_args()
     sys.path.insert(0, os.path.dirname(os.path.dirname(os.path.abspath(__file__))))
     from fv import harness, canon
+    a.src = os.path.abspath(a.src)
+    a.history = [os.path.abspath(h) for h in a.history]
     if a.cwd:
         os.chdir(a.cwd)
     harness.install()
@@ -38,7 +41,8 @@ def main():
         except harness.Rejected:
             pass
     try:
-        bp = harness.compile_src(open(a.src).read(), optimize=not a.noopt, poles=a.poles, config=cfg)
+        bp = harness.compile_src(open(a.src).read(), optimize=not a.noopt, poles=a.poles, config=cfg,
+                                 source_name=os.path.abspath(a.src) if a.as_file else "<string>")
     except harness.Rejected as ex:
         print(json.dumps({"rejected": str(ex)[:300]}))
         return
